@@ -14,7 +14,7 @@ META = {
     "C09": {"engine": "hist", "technique": "runtime monitor: online path check of every mutating System call issued by ruler, and before/after comparison of out-of-scope files",
             "text": "Exploration: goal-restricted builds and cleans over random graphs with decoy files; each mutating call ruler issues is checked against the model's scope, and out-of-scope files are compared (bytes, mtime, exec).", "note": HIST_NOTE},
     "C10": {"engine": "hist", "technique": "runtime monitor: post-clean listing and cache audit, then bytes/exec/command-log check of the following build",
-            "text": "Exploration: build/clean/build sequences inside random histories on the in-memory System (real-file-system stage added separately).", "note": HIST_NOTE},
+            "text": "Exploration: build/clean/build sequences inside random histories on the in-memory System, and the same check with the built binary, shell commands and the real file system (listing, bytes, permission bits, status lines); thorough adds an informational valgrind memcheck stage on the real binary.", "note": HIST_NOTE + "; one known finding is listed in known_findings.json (permission of byte-identical twins)"},
     "C12": {"engine": "sort", "technique": "differential runtime check of the real sorter against an independent set-based reference; exhaustive up to 4 rules, random up to 40",
             "text": "Exploration with an exhaustive core: every directed graph on <=4 named rules (x every goal, single and two-target rules) plus random larger graphs is sorted by the real code and judged by the reference; order-independence by re-running with shuffled rules.", "note": "trusted base: the reference in harness/drivers/sortd.rs; inputs have parser-canonical list order"},
     "C20": {"engine": "hist", "technique": "runtime monitor: recorded Printer calls vs the System-call log of the same build",
@@ -30,7 +30,7 @@ META.update({
     "C05": {"engine": "sched", "technique": "runtime monitor: logical deadlock detection by the scheduler (no runnable thread), panic capture at thread/call boundaries, internal channel errors",
             "text": "Exploration over graphs x failure placements x schedules for build and clean; a hang is decided logically, never by wall clock.", "note": SCHED_NOTE},
     "C06": {"engine": "sched", "technique": "runtime monitor: confluence - same scenario under many schedules must give identical verdict and workspace bytes",
-            "text": "Exploration: each scenario's final build is run under 30 (300 thorough) schedules from one snapshot, biased to states where threads meet in the cache (cleaned byte-identical twins); outcomes compared.", "note": SCHED_NOTE},
+            "text": "Exploration: each scenario's final build is run under 30 (300 thorough) schedules from one snapshot, biased to states where threads meet in the cache (cleaned byte-identical twins); outcomes compared.  Corroborated on the real binary and file system under strace with a delay injected on every rename-family system call.", "note": SCHED_NOTE},
 })
 
 META.update({
@@ -47,11 +47,11 @@ META.update({
     "C13": {"engine": "ident", "technique": "differential runtime check: identity equality vs canonical-form equality on generated near-miss pairs, also through the real parser",
             "text": "Exploration over adversarial near-miss pairs of rules.", "note": PURE_NOTE},
     "C14": {"engine": "parse", "technique": "differential runtime check of the real parser against a reference reading of the format, under catch_unwind",
-            "text": "Exploration: rendered rule sets, corruptions and soups go through the real parser and a separately written reference; results and error (kind, file, line) must match; panics are violations.", "note": PURE_NOTE},
+            "text": "Exploration: rendered rule sets, corruptions and soups go through the real parser and a separately written reference; results and error (kind, file, line) must match; panics are violations.  Thorough repeats a sample under Miri.", "note": PURE_NOTE},
     "C15": {"engine": "hash", "technique": "differential runtime check: ruler's hashes and text codec vs Python hashlib and independent base-62 implementations",
-            "text": "Exploration over byte strings (all lengths around the read buffer), 256-bit values, candidate strings and directory trees.", "note": "trusted base: Python hashlib; independent base-62 in Python and Rust"},
+            "text": "Exploration over byte strings (all lengths around the read buffer, read through short-read handles), 256-bit values, candidate strings and directory trees; exported cases are re-checked with hashlib; thorough repeats the codec part under Miri.", "note": "trusted base: Python hashlib; independent base-62 in Python and Rust"},
     "C16": {"engine": "codec", "technique": "runtime round-trip and damage injection on ruler's own state-file writers/readers; independent bincode layout reader",
-            "text": "Exploration over generated state files and systematic damage (all prefixes, all single bit flips of small images, random bytes).", "note": PURE_NOTE},
+            "text": "Exploration over generated state files and systematic damage (all prefixes, all single bit flips of small images, random bytes); a process abort is a violation; thorough repeats a sample under Miri.", "note": PURE_NOTE},
 })
 
 META.update({
